@@ -115,6 +115,7 @@ func crashMain() {
 	traces := flag.Int("traces", 6, "workloads")
 	length := flag.Int("len", 10, "operations per workload")
 	points := flag.Int("points", 12, "crash points sampled per workload (0 = all)")
+	wide := flag.Int("wide", 0, "one workload: that many keys created one by one, then ONE non-transactional Delete of all of them; the process dies around each of its last calls")
 	flag.Parse()
 	out = bufio.NewWriterSize(os.Stdout, 1<<20)
 	defer out.Flush()
@@ -126,8 +127,21 @@ func crashMain() {
 	}
 	defer os.RemoveAll(dir)
 	self, _ := os.Executable()
+	if *wide > 0 {
+		*traces = 1
+	}
 	for t := 0; t < *traces; t++ {
 		work := crashWorkload(rnd, *length)
+		if *wide > 0 {
+			// a call whose argument list is longer than any batching constant: whatever it does must be all or nothing
+			work = nil
+			var names []string
+			for i := 0; i < *wide; i++ {
+				names = append(names, fmt.Sprintf("w%04d", i))
+				work = append(work, opStrSet(names[i], "v", false))
+			}
+			work = append(work, opKeyDelete(names))
+		}
 		script := filepath.Join(dir, fmt.Sprintf("w%d.txt", t))
 		var sb strings.Builder
 		for _, st := range work {
@@ -143,7 +157,15 @@ func crashMain() {
 		for k := 1; k <= total; k++ {
 			ks = append(ks, k)
 		}
-		if *points > 0 && len(ks) > *points {
+		if *wide > 0 {
+			// the calls of the final Delete are the last ones
+			ks = nil
+			for k := total - 5; k <= total; k++ {
+				if k >= 1 {
+					ks = append(ks, k)
+				}
+			}
+		} else if *points > 0 && len(ks) > *points {
 			rnd.Shuffle(len(ks), func(i, j int) { ks[i], ks[j] = ks[j], ks[i] })
 			ks = ks[:*points]
 		}
